@@ -63,6 +63,13 @@ func judgeBatch(cs *BatchCase, o *BatchObs) []scen.Finding {
 		}
 		return true
 	}
+	// ---------------------------------------------------------------- the run is over when Run returns
+	if o.ParkedAtReturn > 0 {
+		add("C06", "returned-before-settled:"+cc, "Run returned while %d item executions were still inside exec (n=%d c=%d %s): not every item was settled", o.ParkedAtReturn, n, cs.C, mode)
+	}
+	if o.CallbacksAfterReturn > 0 && !o.ErrNil {
+		add("C04", "callback-after-failed-run:"+cc, "the run had already returned its error (%s), yet %d further user callbacks (exec attempts / fallbacks) were invoked afterwards on behalf of that run", o.ErrText, o.CallbacksAfterReturn)
+	}
 	// ---------------------------------------------------------------- C06: post once, after settlement, positional
 	if o.ErrNil {
 		if o.PostCalls != 1 {
@@ -109,6 +116,21 @@ func judgeBatch(cs *BatchCase, o *BatchObs) []scen.Finding {
 		}
 		if s.ValOf != i {
 			add("C09", "slot-not-real-outcome:"+mode+":"+cc, "slot %d is a non-error result that is not a value item %d's execution produced (valOf=%d att=%d nil=%v)", i, i, s.ValOf, s.ValAtt, s.ValNil)
+		}
+	}
+	anyFinalFail := false
+	for i := 0; i < n; i++ {
+		if finalFail(i) {
+			anyFinalFail = true
+		}
+	}
+	if !cancelled && cs.Stop && !anyFinalFail && !cs.Lean {
+		for i := 0; i < n && i < len(o.Attempts); i++ {
+			if o.Attempts[i] == 0 {
+				add("C06", "item-not-processed-without-failure:"+cc, "stop mode, no item fails in this run, yet item %d of %d was never processed (slot: %+v) — n=%d c=%d, earlier run on the same node: %v", i, n, slotOf(o, i), n, cs.C, cs.Prelude != nil)
+				add("C09", "stopped-without-failure:"+cc, "stop mode: item %d was skipped although no item of this run had failed (earlier run on the same node: %v)", i, cs.Prelude != nil)
+				break
+			}
 		}
 	}
 	if !cancelled && !cs.Stop {
@@ -327,6 +349,13 @@ func judgeBatch(cs *BatchCase, o *BatchObs) []scen.Finding {
 		}
 	}
 	return fs
+}
+
+func slotOf(o *BatchObs, i int) Slot {
+	if i < len(o.Slots) {
+		return o.Slots[i]
+	}
+	return Slot{}
 }
 
 func replayBatch(c *Cfg, prop string, spec json.RawMessage) {
